@@ -65,6 +65,8 @@ func (sv structValue) PropertyValue(index Value) Value {
 
 const tagKey = "liquid"
 
+var errorType = reflect.TypeOf((*error)(nil)).Elem()
+
 // like FieldByName, but obeys `liquid:"name"` tags
 func (sv structValue) findField(name string) (*reflect.StructField, bool) {
 	sr := reflect.TypeOf(sv.value)
@@ -91,7 +93,12 @@ func (sv structValue) invoke(fv reflect.Value) Value {
 		return nilValue
 	}
 	mt := fv.Type()
-	if mt.NumIn() > 0 || mt.NumOut() > 2 {
+	// a property is computed by a function of no arguments that returns a value, or a value
+	// and an error
+	if mt.NumIn() > 0 || mt.NumOut() < 1 || mt.NumOut() > 2 {
+		return nilValue
+	}
+	if mt.NumOut() == 2 && mt.Out(1) != errorType {
 		return nilValue
 	}
 	results := fv.Call([]reflect.Value{})
